@@ -3,6 +3,10 @@
 import json, sys
 CHECKS = {
  # id: (technique, level text, level note, design ref)
+ "C01": ("proptest-driven generated-input search: typed inputs for all 96 operations encoded by aws-sdk-s3 (differential routing oracle: exactly the denoted backend method is invoked), plus random and exhaustive raw no-operation requests",
+         "Every operation of the S3 trait x generated inputs x {path-style, virtual-hosted} x {no host parser, SingleDomain, MultiDomain 1-4} is sent by the independent SDK encoder through a wiretap into S3Service with a recording backend: exactly one call of exactly that method. Requests that denote no operation (by the Smithy model's method/path/query table) must yield an S3 error document and no call; all subsets of <=1 (thorough <=2) routing flags are enumerated for every no-op (method, path kind).",
+         "Trusted: aws-sdk-s3 1.82 as encoder of well-formed requests, the Smithy model data/s3.json as routing table, the harness' recording backend generated from the S3 trait.",
+         "DESIGN.md §4 C01"),
  "C20": ("exhaustive enumeration of (pattern,string) pairs + proptest-driven random search against a dynamic-programming reference; JSON round-trip and out-of-grammar mutation oracle",
          "Exhaustive agreement with a DP reference matcher on all patterns over {a,b,*,?} up to length 6 (thorough: 7) x strings over {a,b} up to length 6 (thorough: 8); random longer/Unicode pairs and pattern sets; generated Policy values round-trip through JSON; mutated documents outside the IAM grammar must be refused.",
          "Trusted: the DP reference (validated against a naive recursive matcher at start-up), serde_json as the JSON reader/writer. Characters are Unicode scalars.",
